@@ -17,8 +17,9 @@ RegMapSpec (JSON)
      reg             "cls": index
      input/output    "w": signal width, "offset": bit offset inside the word
      array           "elem": leaf Item template (word kinds or reg), "n", "step"
-     file            "word_count", "items": [leaf Items, offsets relative to the file]
-     mem             "words": n, "initial": 0 | 0xFFFFFFFF | None   (reg32.Memory[off : off+4n]; one multi-word
+     file            "word_count", "items": [leaf Items or files (nesting), offsets relative to the file]
+     mem             "words": n, "initial": 0 | 0xFFFFFFFF | None, "mode": "immediate"|"ignore"|"readback"|"split",
+                     "unaligned": bool (split only), "inline": bool   (reg32.Memory[off : off+4n]; one multi-word
                      object, flattened into n "memcell" instances; None = no initial value: unknown until written)
   field kinds: "field" "ufield" (no storage: hardware driven or constant default), "memfield" "memufield"
   (written values are stored), "flag" (FlagField: set by writing '1', cleared by hardware);
@@ -84,17 +85,25 @@ def flatten(spec):
         inst["idx"] = len(out)
         out.append(inst)
 
+    def walk_file(f, base, path):
+        # nested RegFiles (any depth): member offsets are relative to the enclosing file
+        for m in f["items"]:
+            if m["what"] == "file":
+                walk_file(m, base + m["off"], f"{path}.{m['name']}")
+            else:
+                leaf(m, base + m["off"], f"{path}.{m['name']}")
+
     for it in spec["items"]:
         if it["what"] == "array":
             for i in range(it["n"]):
                 leaf(it["elem"], it["off"] + i * it["step"], f"self.{it['name']}[{i}]")
         elif it["what"] == "file":
-            for m in it["items"]:
-                leaf(m, it["off"] + m["off"], f"self.{it['name']}.{m['name']}")
+            walk_file(it, it["off"], f"self.{it['name']}")
         elif it["what"] == "mem":
             for i in range(it["words"]):
                 leaf({"name": it["name"], "what": "memcell", "initial": it.get("initial"), "mem_off": it["off"],
-                      "mem_words": it["words"]}, it["off"] + 4 * i, None)
+                      "mem_words": it["words"], "mode": it.get("mode", "immediate"),
+                      "unaligned": bool(it.get("unaligned"))}, it["off"] + 4 * i, None)
         else:
             leaf(it, it["off"], f"self.{it['name']}")
     hw = spec["entry"] == "base"
@@ -201,6 +210,8 @@ class RegModel:
         if what in ("memword", "memuword"):
             new["stored"] = (st["stored"] & ~m | data & m) & M32
         elif what == "memcell":
+            if inst.get("mode") == "ignore":
+                m = M32      # MaskMode.IGNORE: "the mask parameter is ignored", the word is assigned as a whole
             new["stored"] = (st["stored"] & ~m | data & m) & M32
             new["known"] = st["known"] | m
         elif what == "output":
@@ -516,6 +527,11 @@ class Runner:
         self.labels.add("clock_budget_exhausted")
 
     # ------------------------------------------------------------------ model events
+    @staticmethod
+    def _regname(inst):
+        return inst["what"] + (":" + inst["mode"] + ("+unaligned" if inst["unaligned"] else "")
+                               if inst["what"] == "memcell" else "")
+
     def _target(self, t):
         return self.model.lookup(t["addr"] % (1 << self.spec["addr_width"]))
 
@@ -533,8 +549,19 @@ class Runner:
             return
         self.labels.add(f"write:{inst['what']}")
         t["new"] = True     # has an effect; the states are derived from the current state when needed
+        t["pieces"] = [(inst, t["data"], t["strb"])]
+        if inst["what"] == "memcell":
+            self.labels.add(f"write:mem:{inst['mode']}" + (":partial" if t["strb"] not in (0, 15) else ""))
         if t["addr"] % 4:
             self.labels.add("write:unaligned")
+            sh = t["addr"] % 4
+            if inst["what"] == "memcell" and inst["unaligned"]:
+                # Memory(allow_unaligned=True): WDATA byte j (qualified by WSTRB[j]) goes to byte address addr + j
+                nxt = m.lookup((t["addr"] % (1 << self.spec["addr_width"])) - sh + 4)
+                t["pieces"] = [(inst, (t["data"] << 8 * sh) & M32, (t["strb"] << sh) & 15)]
+                if nxt is not None and nxt["what"] == "memcell" and nxt["name"] == inst["name"]:
+                    t["pieces"].append((nxt, t["data"] >> 8 * (4 - sh), t["strb"] >> (4 - sh)))
+                self.labels.add("write:mem:unaligned_window")
         if inst["what"] == "reg":
             nf = len([f for f in m.classes[inst["cls"]]["fields"] if f["kind"] in ("memfield", "memufield", "flag")])
             if t["strb"] not in (0, 15) and nf >= 2:
@@ -543,15 +570,16 @@ class Runner:
             for n in m.classes[inst["cls"]]["notify"]:
                 self._notify(inst, n, "w", k, t)
 
-    def _after(self, t):
+    def _after(self, t, piece=0):
         """(strict state, shadow state) of the target of write t once it has taken effect"""
-        m, inst = self.model, t["inst"]
+        m = self.model
+        inst, data, strb = t["pieces"][piece]
         i = inst["idx"]
-        alt = m.written_state(inst, self.shadow[i], t["data"], t["strb"], ignore_strobe=True)
+        alt = m.written_state(inst, self.shadow[i], data, strb, ignore_strobe=True)
         if t.get("adopt_alt"):      # a strobe-ignoring effect of this write has been observed and reported
             new = dict(m.state[i], stored=alt["stored"], known=alt["known"])
         else:
-            new = m.written_state(inst, m.state[i], t["data"], t["strb"])
+            new = m.written_state(inst, m.state[i], data, strb)
         return new, alt
 
     def _notify(self, inst, n, on, k, t):
@@ -568,8 +596,8 @@ class Runner:
         m = self.model
         self.counters["writes_done"] += 1
         if t.get("new") is not None:
-            i = t["inst"]["idx"]
-            m.state[i], self.shadow[i] = self._after(t)
+            for n, (inst, _, _) in enumerate(t["pieces"]):
+                m.state[inst["idx"]], self.shadow[inst["idx"]] = self._after(t, n)
         self._close(t, k)
 
     def _close(self, t, k):
@@ -594,26 +622,55 @@ class Runner:
             self.labels.add("read:unmapped" if inst is None else "read:writeonly")
             return
         self.labels.add(f"read:{inst['what']}")
+        t["rpieces"] = [inst]
         if t["addr"] % 4:
             self.labels.add("read:unaligned")
+            if inst["what"] == "memcell" and inst["unaligned"]:
+                # Memory(allow_unaligned=True): the four bytes starting at the byte address
+                nxt = m.lookup((t["addr"] % (1 << self.spec["addr_width"])) - t["addr"] % 4 + 4)
+                if nxt is not None and nxt["what"] == "memcell" and nxt["name"] == inst["name"]:
+                    t["rpieces"].append(nxt)
+                else:
+                    t["rpieces"].append(None)       # beyond the end of the memory: not determined
+                self.labels.add("read:mem:unaligned_window")
         if inst["what"] == "reg":
             for n in m.classes[inst["cls"]]["notify"]:
                 self._notify(inst, n, "r", k, t)
+
+    def _read_val(self, t, st_of):
+        """value of read t when instance i has state st_of(i)"""
+        m = self.model
+        ps = t["rpieces"]
+        v = m.read_value(ps[0], st_of(ps[0]))
+        if len(ps) == 1:
+            return v
+        if ps[1] is None:
+            return None
+        v1 = m.read_value(ps[1], st_of(ps[1]))
+        if v is None or v1 is None:
+            return None
+        sh = 8 * (t["addr"] % 4)
+        return ((v >> sh) | (v1 << (32 - sh))) & M32
 
     def _note_possible(self, t, writes):
         m = self.model
         inst = t.get("inst")
         if inst is None or not m.readable(inst):
             return
-        i = inst["idx"]
-        t["allowed"].add(m.read_value(inst))
-        t["allowed_alt"].add(m.read_value(inst, self.shadow[i]))
-        for wtx in writes:
-            if wtx.get("req_done") is not None and wtx.get("inst") is inst and wtx.get("new") is not None:
-                new, alt = self._after(wtx)
-                t["allowed"].add(m.read_value(inst, new))
-                t["allowed_alt"].add(m.read_value(inst, alt))
-                t["overlaps_write"] = True
+        mine = {p["idx"] for p in t["rpieces"] if p is not None}
+        t["allowed"].add(self._read_val(t, lambda i: m.state[i["idx"]]))
+        t["allowed_alt"].add(self._read_val(t, lambda i: self.shadow[i["idx"]]))
+        # writes in flight that touch the register(s): each alone and all of them (in order) may have taken effect
+        hits = [w for w in writes if w.get("req_done") is not None and w.get("new") is not None
+                and any(p[0]["idx"] in mine for p in w["pieces"])]
+        for group in [[w] for w in hits] + ([hits] if len(hits) > 1 else []):
+            over, over_alt = {}, {}
+            for w in group:
+                for n, (pi, _, _) in enumerate(w["pieces"]):
+                    over[pi["idx"]], over_alt[pi["idx"]] = self._after(w, n)
+            t["allowed"].add(self._read_val(t, lambda i: over.get(i["idx"], m.state[i["idx"]])))
+            t["allowed_alt"].add(self._read_val(t, lambda i: over_alt.get(i["idx"], self.shadow[i["idx"]])))
+            t["overlaps_write"] = True
 
     def _read_completed(self, t, k, S):
         m = self.model
@@ -632,14 +689,14 @@ class Runner:
         if got in exp:
             return
         if got is not None and got in t["allowed_alt"]:
-            self.add({"kind": "write_mask", "reg": inst["what"], "cause": "strobe_ignored"},
+            self.add({"kind": "write_mask", "reg": self._regname(inst), "cause": "strobe_ignored"},
                      f"clock {k}: read of 0x{t['addr']:x} ({inst['what']} at 0x{inst['off']:x}) returned {got:#010x}: the value "
                      f"an earlier partial-strobe write would leave if its byte strobes were ignored; strobed-bytes model "
                      f"{sorted(hex(v) for v in exp)}")
             sh = self.shadow[inst["idx"]]
             m.state[inst["idx"]] = dict(m.state[inst["idx"]], stored=sh["stored"], known=sh["known"])
             return
-        self.add({"kind": "read_data", "reg": inst["what"], "cause": "unexplained"},
+        self.add({"kind": "read_data", "reg": self._regname(inst), "cause": "unexplained"},
                  f"clock {k}: read of 0x{t['addr']:x} ({inst['what']} at 0x{inst['off']:x}) returned "
                  f"{'undefined' if got is None else hex(got)}, model allows {sorted(hex(v) for v in exp)}")
         raise Finding()
